@@ -139,11 +139,19 @@ func RunC18(ep *core.Episode) {
 			if !strings.HasPrefix(site, "ast") {
 				return
 			}
-			if !startedUp && ln.HasAcceptor() {
-				startedUp = true
-			}
 			// a lock wait is always a scheduling point: the holder may still be parked at an earlier yield
-			if site == "ast-lock" || (!startedUp && S.Known()) {
+			if site == "ast-lock" {
+				S.Yield(site)
+				return
+			}
+			if startedUp {
+				return
+			}
+			if ln.HasAcceptor() {
+				startedUp = true
+				return
+			}
+			if S.Known() {
 				ep.ProbeN("inserted-yield-taken", 1)
 				S.Yield(site)
 			}
